@@ -572,6 +572,27 @@ func (r *Rng) jvMutate(root *jv) *jv {
 			}
 		}
 	}
+	// a repeated "bbox" member decodes INTO the array the first one left behind (encoding/json merges:
+	// a null element keeps the earlier number): that is the json package's doing, not modelled — only
+	// the first bbox of an object is kept
+	var all []*jv
+	root.nodes(&all)
+	for _, n := range all {
+		if n.kind != 'o' {
+			continue
+		}
+		seen := false
+		for k := 0; k < len(n.keys); k++ {
+			if strings.EqualFold(n.keys[k], "bbox") {
+				if seen {
+					n.keys = append(n.keys[:k], n.keys[k+1:]...)
+					n.items = append(n.items[:k], n.items[k+1:]...)
+					k--
+				}
+				seen = true
+			}
+		}
+	}
 	return root
 }
 
